@@ -14,7 +14,7 @@ git -C $MT/repo apply $P || { echo "patch does not apply"; exit 2; }
 sed -i "s|/repo/crates|$MT/repo/crates|g" $MT/verif/harness/vmon/Cargo.toml
 cd $MT/verif
 for id in "$@"; do
-  ./check $id --tier ${TIER:-quick} > $MT/try_$id.log 2>&1; rc=$?
+  ./check $id --tier ${TIER:-quick} ${LANE:+--lane $LANE} > $MT/try_$id.log 2>&1; rc=$?
   echo "RESULT $(basename $(dirname $P))/$(basename $(dirname $(dirname $P))) $id exit=$rc $(grep -c '^VIOLATION' $MT/try_$id.log) violation line(s): $(grep -m2 'signature:' $MT/try_$id.log | tr '\n' ' ')"
 done
 git -C $MT/repo checkout -q -- .
